@@ -702,7 +702,7 @@ func bodyC18(s *Sim) {
 func init() {
 	register(&Profile{Name: "C18", Decide: []string{"C18"}, Quick: 4000, Thorough: 200000, Gen: genC18, Body: bodyC18,
 		NonVacuous: []string{"C18.overlap", "C18.applied"}, Chunk: 100,
-		Rule: "Populations of 1-4 ExtendedDaemonsetSettings in one namespace (equal or different creation times, selectors by labels or expressions incl. NotIn/Exists/DoesNotExist, with or without reference, occasionally an unusable selector) over 1-4 labelled nodes; setting create/edit/delete and node relabelling interleaved with setting, ExtendedDaemonSet and replica-set reconciles in seeded order, list failures injected; then a fault-free pass reconciling every setting in a PRNG order, after which the verdicts are judged; every pod create is checked for the setting it applied."})
+		Rule: "Populations of 1-4 ExtendedDaemonsetSettings in one namespace (in a tenth a node registered without any label and settings that select by absence only; equal or different creation times, selectors by labels or expressions incl. NotIn/Exists/DoesNotExist, with or without reference, occasionally an unusable selector) over 1-4 labelled nodes; setting create/edit/delete and node relabelling interleaved with setting, ExtendedDaemonSet and replica-set reconciles in seeded order, list failures injected; then a fault-free pass reconciling every setting in a PRNG order, after which the verdicts are judged; every pod create is checked for the setting it applied."})
 }
 
 // ---------------------------------------------------------------------------------------
@@ -1681,7 +1681,7 @@ func bodyC05(s *Sim) {
 func init() {
 	register(&Profile{Name: "C05", Decide: []string{"C05"}, Quick: 2500, Thorough: 120000, Gen: genC05, Body: bodyC05,
 		NonVacuous: []string{"C05.switch"}, Chunk: 50,
-		Rule: "A canary is started through the real reconcilers (strategy auto or manual, duration 1-10 min, noRestartsDuration unset/0/positive); then a focused seeded phase of kubectl-eds canary pause/unpause/validate/fail, user edits of the canary-paused / canary-unpaused / canary-valid annotations, container restarts, replica-set syncs, ExtendedDaemonSet reconciles, stalls and clock jumps to boundary instants (creation+duration, last restart+noRestartsDuration, each at -1s, exactly, +1ns, +1s), optionally the recorded active replica set is deleted (at once, or held by a finalizer so that it stays Terminating); finally the clock passes the end of the duration and the ExtendedDaemonSet is reconciled. Every change of status.activeReplicaSet is judged against the promotion rule. " + histRule})
+		Rule: "A canary is started through the real reconcilers (strategy auto or manual, duration 1-10 min, noRestartsDuration unset/0/positive); then a focused seeded phase of kubectl-eds canary pause/unpause/validate/fail, user edits of the canary-paused / canary-unpaused / canary-valid annotations, container restarts, replica-set syncs, ExtendedDaemonSet reconciles, stalls and clock jumps to boundary instants (creation+duration, last restart+noRestartsDuration, each at -1s, exactly, +1ns, +1s), optionally the recorded active replica set is deleted (at once, or held by a finalizer so that it stays Terminating); in a third of the runs the canary is failed, its replica set synced as a leftover and the same template applied again; finally the clock passes the end of the duration and the ExtendedDaemonSet is reconciled. Every change of status.activeReplicaSet is judged against the promotion rule. " + histRule})
 }
 
 // C13: template edit histories, with every third run a failed-canary history (clean-up guards
@@ -1772,7 +1772,7 @@ func init() {
 		"Even run indices: state injection - 1-8 (thorough 1-16) nodes with labels/taints from the vocabulary, a template with selector/affinity/tolerations, per node a multiset of 0-3 daemon pods (phase Pending/Running/Failed/Unknown/creating, scheduled or not, Terminating or not, of the old or the new replica set or adopted from the old DaemonSet, equal or different ages), canary block present or absent, both node-assignment modes; then syncs of the new and the old replica set in drawn order with seeded map order, parallel-call interleaving and API faults."))
 	register(mixProfile(histProfile("C09", []string{"C09"}, 3000, 120000, histOpts{maxNodes: 8, pCanary: 0.2, fancy: []float64{0, 0.3}, faults: true}, "C09.creates", "C09.spacing", "C09.update-del"),
 		genC09Inject, map[string]func(*Sim){"c09inject": bodyC09Inject},
-		"Even run indices: 0-40 nodes lacking a pod, slowStartIntervalDuration 1s-5m, additive increase as number or percent, maxParallelPodCreation 1-250, reconcileFrequency 1s-1m; 5-20 reconcile requests at instants drawn from the boundary set (slot edges of the Active condition and LastFullSync+frequency, each at -1s, exactly, +1ns, +1s, plus small steps), a template change half-way in a third of the runs (in a fifth a canary that is validated or failed right after a sync of its replica set, with the replica sets requested again at the same instant), partial kubelet progress in between, rejects and API clock skew in a third."))
+		"Even run indices: 0-40 nodes lacking a pod, slowStartIntervalDuration 1s-5m, additive increase as number or percent, maxParallelPodCreation 1-250, reconcileFrequency 1s-1m; 5-20 reconcile requests at instants drawn from the boundary set (slot edges of the Active condition and LastFullSync+frequency, each at -1s, exactly, +1ns, +1s, plus small steps), a template change half-way in a third of the runs (in a fifth a canary that is validated or failed right after a sync of its replica set, with the replica sets requested again at the same instant), partial kubelet progress in between, rejects and API clock skew in a third; in an eighth of the larger clusters the replica set has been active for 26-51 simulated days with slow start practically off (increase 1000 per second, or 100% per 10 ms) when a batch of pods is evicted."))
 }
 
 func init() {
